@@ -328,6 +328,13 @@ class GhostDB(object):
         if isinstance(coll, (VList, VSet, list, tuple, set, frozenset)):
             items = coll.items if isinstance(coll, (VList, VSet)) else coll
             return ops.z3bool(ops.z_or(*[term == to_term(x, ty) for x in items]))
+        if hasattr(coll, 'sequence'):
+            # lazily built collection (generator over a symbolic sequence)
+            seq = coll.sequence(self.I, 'in')
+            i = z3.Int(self.I.ex.fresh_name('i.member'))
+            el = seq.element(self.I, i)
+            return z3.Exists([i], z3.And(i >= 0, i < seq.len,
+                                         to_term(el, ty) == term))
         raise Undecided('IN over %r' % (coll,))
 
     # --------------------------------------------------------- key pinning
